@@ -574,6 +574,15 @@ func (f *ForwardForm) TransitionNP(process *Process, re *RuntimeEnvironment) {
 		process.terminateForward(re)
 	}
 
+	if len(process.Providers) > 1 {
+		// A forward that provides on several names (i.e. the result of a split) must hand over all of
+		// its names: it cannot accept a forward request addressed to only its first name, since that
+		// would close (and lose) the remaining names
+		f.from_c.ControlChannel <- controlMessage
+		forwardRule()
+		return
+	}
+
 	// TransitionAsSpecialForm(process, f.from_c.ControlChannel, forwardRule, controlMessage, re)
 	select {
 	case cm := <-process.Providers[0].ControlChannel:
